@@ -121,6 +121,8 @@ def _arm_kill(where, nth):
         return inner
     if where == "unlink":
         syn.sem_unlink = wrap(syn.sem_unlink)
+    elif where == "register":
+        rt.register = wrap(rt.register)
     else:
         rt.unregister = wrap(rt.unregister)
 
@@ -171,6 +173,33 @@ def part_sem(args, out):
         del e, f
         gc.collect()
         res["released"] = True
+    elif hist == "collision":
+        # creations that collide with the name of a living semaphore of this very process: an
+        # explicit name given twice, and the retry loop of SemLock.__init__ drawing a taken name
+        import importlib
+        syn = importlib.import_module("loky.backend.synchronize")
+        first = syn.Lock()
+        taken = first._semlock.name
+        try:
+            syn.SemLock(1, 1, 1, name=taken)
+            res["explicit"] = "created"
+        except FileExistsError:
+            res["explicit"] = "FileExistsError"
+        orig = syn.SemLock._make_name
+        seq = iter([taken, taken])
+        syn.SemLock._make_name = staticmethod(lambda: next(seq, None) or orig())
+        second = syn.Lock()
+        syn.SemLock._make_name = staticmethod(orig)
+        third = syn.Semaphore(2)
+        res["r"] = [first.acquire(), second.acquire(), third.acquire()]
+        res["names"] = [taken, second._semlock.name, third._semlock.name]
+        if args.get("release", True) and how == "normal":
+            del first, second, third
+            gc.collect()
+            res["released"] = True
+        else:
+            globals()["_keep"] = (first, second, third)
+            res["released"] = False
     elif hist == "primitives":
         ctx = get_context("loky")
         objs = [ctx.Lock(), ctx.RLock(), ctx.Semaphore(2), ctx.BoundedSemaphore(2),
